@@ -151,6 +151,16 @@ def main():
                 os.environ.pop(k, None)
             else:
                 os.environ[k] = v
+        if case.get("host_builds_an_env_from_the_default"):
+            # what host code does for ANOTHER server: take the default environment and add to it.  The mapping it was handed is
+            # its own: nothing it writes there may show up in a later default environment
+            mine = get_default_environment()
+            try:
+                mine["WAREHOUSE_API_TOKEN"] = "host-secret-for-another-server"
+                mine["PATH"] = "/scribbled/by/the/host"
+                mine.pop("HOME", None)
+            except TypeError:
+                pass                    # an immutable mapping is as good
         res = {"id": case["id"], "host": dict(os.environ), "denv": dict(get_default_environment()), "steps": [],
                "stragglers": 0}
         dirs = case["dirs"]
